@@ -96,8 +96,12 @@ def run_config(cfg, res):
   real_compute = buffers.MetricBuffer.compute_value
 
   def compute_wrapper(self):
-    flushes.append(self.metric_path)
-    return real_compute(self)
+    flushes.append((self.metric_path, VClock.time()))
+    try:
+      return real_compute(self)
+    finally:
+      flushes.append((self.metric_path, None))      # end marker: what was generated up to here belongs to this flush
+      gen_marks.append(len(generated))
   buffers.MetricBuffer.compute_value = compute_wrapper
 
   root = MultiService()
@@ -105,6 +109,7 @@ def run_config(cfg, res):
   service.setupPipeline(['rewrite:pre', 'aggregate', 'rewrite:post', 'relay'], root, settings)   # as createAggregatorService
   out = []          # everything that leaves the pipeline towards the destinations
   generated = []    # what the aggregator generated
+  gen_marks = []    # len(generated) at the end of every flush
 
   class Sink(object):
     def sendDatapoint(self, metric, datapoint):
@@ -130,7 +135,7 @@ def run_config(cfg, res):
     buffers.BufferManager.clear()
     world['fake'] = fakereactor.FakeReactor()
     fake = world['fake']
-    del out[:], generated[:], flushes[:]
+    del out[:], generated[:], flushes[:], gen_marks[:]
     viol = []
     sh = {}            # (agg, interval) -> record
     ever = {}          # agg -> set(intervals with data)
@@ -141,47 +146,81 @@ def run_config(cfg, res):
       return BASE + fake.seconds()
 
     def check_emissions():
+      """Walks the flushes observed since the last call in order.  The retention model is the documented one, applied at
+      the moments carbon applies it (the flushes): an interval that has been emitted and then stayed without input for more
+      than MAX_AGGREGATION_INTERVALS intervals is forgotten; after that, if a series still holds more than MAX + 2
+      intervals the oldest are forgotten.  Nothing else may make buffered values disappear."""
       nonlocal nemit
-      for (m, (interval, value)) in generated:
-        nemit += 1
-        res.count('emissions_checked')
-        cands = [k for k in sh if k[0] == m]
-        rec = sh.get((m, interval))
-        if rec is None:
-          viol.append(('emitted-without-input', 'aggregate %r emitted for interval %r which never received data (known intervals %r)' % (m, interval, sorted(k[1] for k in cands))))
-          continue
-        freq = rec['freq']
-        if interval % freq != 0:
-          viol.append(('unaligned-interval', 'aggregate %r emitted interval %r, not a multiple of the rule frequency %d' % (m, interval, freq)))
-        if not rec['since']:
-          viol.append(('re-emitted-without-new-data', 'aggregate %r interval %r emitted again without new input (all=%r)' % (m, interval, rec['all'])))
-          continue
-        newer = sum(1 for i in ever.get(m, ()) if i > interval)
-        dropped_ok = rec['dropped_ok'] or newer >= mx + 2
-        if rec['last_emit'] is not None and now() - rec['last_emit'] > (mx - 1) * freq:
-          dropped_ok = True
-        ok = False
-        allv = rec['all']
-        accept = [allv]
-        if dropped_ok:
-          ns_ = len(rec['since'])
-          accept = [allv[k:] for k in range(0, len(allv) - ns_ + 1)]
-        for vals in accept:
-          exp = aggrules.apply(rec['method'], vals)
-          if exp is None:
+      gi = 0
+      fl = [f for f in flushes if f[1] is not None]
+      for k, (m, t) in enumerate(fl):
+        hi = gen_marks[k] if k < len(gen_marks) else len(generated)
+        emitted_here = generated[gi:hi]
+        gi = hi
+        recs = dict((key[1], rec) for key, rec in sh.items() if key[0] == m)
+        freq = None
+        for rec in recs.values():
+          freq = rec['freq']
+        emitted_intervals = set()
+        for (gm, (interval, value)) in emitted_here:
+          nemit += 1
+          res.count('emissions_checked')
+          if gm != m:
+            viol.append(('emitted-by-other-series', 'flush of %r generated a datapoint for %r' % (m, gm)))
             continue
-          if exp == value or (isinstance(exp, float) and abs(exp - value) <= 1e-9 * max(1.0, abs(exp))):
-            ok = True
-            break
-        if not ok:
-          kind = 'within-horizon' if not dropped_ok else 'after-expiry'
-          viol.append(('wrong-value/%s' % kind, 'aggregate %r interval %r emitted %r; %s over all values %r is %r (values since last emission %r)' % (
-            m, interval, value, rec['method'], allv, aggrules.apply(rec['method'], allv), rec['since'])))
-        if dropped_ok and not rec['dropped_ok']:
-          rec['dropped_ok'] = True
-        rec['since'] = []
-        rec['last_emit'] = now()
-      del generated[:]
+          rec = recs.get(interval)
+          if rec is None:
+            viol.append(('emitted-without-input', 'aggregate %r emitted for interval %r which never received data (known intervals %r)' % (m, interval, sorted(recs))))
+            continue
+          emitted_intervals.add(interval)
+          if interval % rec['freq'] != 0:
+            viol.append(('unaligned-interval', 'aggregate %r emitted interval %r, not a multiple of the rule frequency %d' % (m, interval, rec['freq'])))
+          if not rec['since']:
+            viol.append(('re-emitted-without-new-data', 'aggregate %r interval %r emitted again without new input (all=%r)' % (m, interval, rec['all'])))
+            continue
+          allv = rec['all']
+          exp = aggrules.apply(rec['method'], allv)
+          ok = exp is not None and (exp == value or (isinstance(exp, float) and abs(exp - value) <= 1e-9 * max(1.0, abs(exp))))
+          if not ok and rec.get('reloaded'):
+            # a rules reload may or may not have kept what was buffered before it: any suffix that contains the new values
+            ns_ = len(rec['since'])
+            for k2 in range(0, len(allv) - ns_ + 1):
+              e2 = aggrules.apply(rec['method'], allv[k2:])
+              if e2 is not None and (e2 == value or (isinstance(e2, float) and abs(e2 - value) <= 1e-9 * max(1.0, abs(e2)))):
+                ok = True
+                break
+          if not ok:
+            kind = 'within-horizon' if not rec['was_forgotten'] else 'after-expiry'
+            viol.append(('wrong-value/%s' % kind, 'aggregate %r interval %r emitted %r; %s over the values buffered for it %r is %r (values since last emission %r)' % (
+              m, interval, value, rec['method'], allv, exp, rec['since'])))
+          rec['since'] = []
+          rec['last_emit'] = t
+        if freq is None:
+          continue
+        now_i = int(t)
+        cur = now_i - (now_i % freq)
+        thr = cur - mx * freq
+        # an interval with new data must have been emitted by this flush
+        for interval, rec in recs.items():
+          if rec['alive'] and rec['since'] and interval not in emitted_intervals and not rec.get('reloaded'):
+            viol.append(('not-emitted-at-flush', 'aggregate %r interval %r holds new values %r but the flush at %r did not emit it' % (m, interval, rec['since'], t)))
+          if interval in emitted_intervals:
+            rec['inactive'] = cur
+          elif rec['alive'] and rec['inactive'] is not None and rec['inactive'] < thr:
+            rec['alive'] = False                      # forgotten after MAX idle intervals
+        alive = sorted(i for i, rec in recs.items() if rec['alive'])
+        if len(alive) > mx + 2:
+          for interval in alive[:-(mx + 2)]:
+            recs[interval]['alive'] = False          # more than MAX + 2 intervals held: the oldest go
+        for interval, rec in recs.items():
+          if not rec['alive'] and (rec['all'] or not rec['was_forgotten']):
+            rec['all'] = []
+            rec['since'] = []
+            rec['inactive'] = None
+            rec['was_forgotten'] = True
+      flushed = set(f[0] for f in fl)
+      del generated[:], flushes[:], gen_marks[:]
+      return flushed
 
     for ev in evs:
       if ev[0] == 'reload':
@@ -191,7 +230,7 @@ def run_config(cfg, res):
         rules = load_rules(ev[1])
         check_emissions()
         for rec in sh.values():
-          rec['dropped_ok'] = True
+          rec['reloaded'] = True
           rec['since'] = []
         res.count('rule_reloads_mid_stream')
       elif ev[0] == 'arrive':
@@ -210,7 +249,10 @@ def run_config(cfg, res):
           feeds.add(agg)
           freq = rule['frequency']
           interval = ts - (ts % freq)
-          rec = sh.setdefault((agg, interval), dict(all=[], since=[], last_emit=None, dropped_ok=False, freq=freq, method=rule['method']))
+          rec = sh.setdefault((agg, interval), dict(all=[], since=[], last_emit=None, freq=freq, method=rule['method'],
+                                                    alive=True, inactive=None, was_forgotten=False))
+          rec['alive'] = True
+          rec['inactive'] = None
           if rec['method'] != rule['method'] or rec['freq'] != freq:      # the rule changed under this series
             rec['method'], rec['freq'] = rule['method'], freq
           rec['all'].append(value)
@@ -227,12 +269,11 @@ def run_config(cfg, res):
                        'datapoint %r forwarded as %r; FORWARD_ALL=%s, feeds %r' % ((name, (ts, value)), fw, cfg['fwd'], sorted(feeds))))
         check_emissions()
       else:
-        del flushes[:]
         n_out0 = len(out)
         fake.advance(ev[1])
-        check_emissions()
+        flushed = check_emissions()
         # after a flush no series may hold more than MAX + 2 intervals
-        for m in set(flushes):
+        for m in flushed:
           b = buffers.BufferManager.buffers.get(m)
           if b is not None and len(b.interval_buffers) > mx + 2:
             viol.append(('too-many-intervals', 'series %r holds %d intervals after a flush (MAX_AGGREGATION_INTERVALS=%d)' % (m, len(b.interval_buffers), mx)))
@@ -255,11 +296,8 @@ def run_config(cfg, res):
         viol.append(('timer-leak', '%d timers still pending after all series were released' % len(pend)))
       # every value fed must have been emitted at least once by now
       for (m, interval), rec in sh.items():
-        if rec['since'] and rec['last_emit'] is None and not rec['dropped_ok']:
-          newer = sum(1 for i in ever.get(m, ()) if i > interval)
-          old = (BASE + 0) - interval   # intervals far in the past may be dropped before their first flush
-          if newer < mx + 2 and interval >= BASE - mx * rec['freq']:
-            viol.append(('never-emitted', 'aggregate %r interval %r received %r but was never emitted' % (m, interval, rec['all'])))
+        if rec['since'] and rec['alive'] and not rec.get('reloaded'):
+          viol.append(('never-emitted', 'aggregate %r interval %r received %r but was never emitted' % (m, interval, rec['all'])))
     return viol, nemit, late
 
   def report(viol, rules_text, evs, label):
